@@ -195,6 +195,18 @@ def load_documents() -> List[Tuple[str, str]]:
                                                            odxgen.p_value("x", "u8")]}])
     good = odxgen.emit_container({"name": "c_ldl", "layers": [model]})
     docs = [("sound", good)]
+    # sound documents whose content is not what the simplest reading of a tag expects: whatever
+    # a parser has to look at twice (a fractional coefficient of an integer-typed method, numbers
+    # with exponent or sign, padded text) must come out the same in both modes
+    from ..codecgen import linear
+    frac = odxgen.simple_layer(
+        "ldf", [odxgen.dop("u8", odxgen.dct_std("A_UINT32", 8)),
+                odxgen.dop("steps", odxgen.dct_std("A_UINT32", 8), "A_UINT32", linear(0, 2.5)),
+                odxgen.dop("neg", odxgen.dct_std("A_INT32", 16), "A_INT32", linear(-7, 1.25, 2)),
+                odxgen.dop("flt", odxgen.dct_std("A_UINT32", 16), "A_FLOAT64", linear(0.5, 1e-2))],
+        [{"name": "rq", "params": [odxgen.u8const("sid", 0x11), odxgen.p_value("a", "steps"),
+                                   odxgen.p_value("b", "neg"), odxgen.p_value("c", "flt")]}])
+    docs.append(("sound-fractional-coefficients", odxgen.emit_container({"name": "c_ldf", "layers": [frac]})))
 
     def variant(name: str, old: str, new: str) -> None:
         if old not in good:
@@ -226,6 +238,40 @@ def load_summary(xml: str) -> Any:
                         str(getattr(svc, "transmission_mode", None)), str(getattr(svc, "addressing", None)),
                         str(getattr(svc, "diagnostic_class", None)),
                         tuple(p.short_name for p in (svc.request.parameters if svc.request else []))))
+        # what the parsers made of the numbers in the data object properties
+        ddds = getattr(dl, "diag_data_dictionary_spec", None)
+        for d in (getattr(ddds, "data_object_props", None) or []):
+            out.append((dl.short_name, "dop", d.short_name, _compu_digest(getattr(d, "compu_method", None)),
+                        repr(getattr(getattr(d, "diag_coded_type", None), "bit_length", None))))
+        for svc in dl.services:
+            rq = svc.request
+            if rq is None or not any(p.short_name in ("a", "b", "c") for p in rq.parameters):
+                continue
+            for vals in ({"a": 5, "b": -2, "c": 1.5}, {"a": 25, "b": 3, "c": 100.5}):
+                try:
+                    pdu = bytes(rq.encode(**vals))
+                    out.append((dl.short_name, "coding", repr(vals), pdu.hex(), repr(rq.decode(pdu))))
+                except Exception as e:  # the outcome is data
+                    out.append((dl.short_name, "coding", repr(vals), type(e).__name__, str(e)[:120]))
+    return tuple(out)
+
+
+def _compu_digest(cm: Any) -> Any:
+    """category, limits, coefficients and constants of a compu method, as parsed"""
+    if cm is None:
+        return None
+    out: List[Any] = [str(getattr(cm, "category", None))]
+    for side in ("compu_internal_to_phys", "compu_phys_to_internal"):
+        part = getattr(cm, side, None)
+        for sc in (getattr(part, "compu_scales", None) or []):
+            coeffs = getattr(sc, "compu_rational_coeffs", None)
+            out.append((side[6:9],
+                        repr(getattr(getattr(sc, "lower_limit", None), "value_raw", None)),
+                        repr(getattr(getattr(sc, "upper_limit", None), "value_raw", None)),
+                        repr(list(getattr(coeffs, "numerators", None) or [])),
+                        repr(list(getattr(coeffs, "denominators", None) or [])),
+                        repr(getattr(getattr(sc, "compu_const", None), "v", None)),
+                        repr(getattr(getattr(sc, "compu_const", None), "vt", None))))
     return tuple(out)
 
 
